@@ -180,7 +180,11 @@ def run(ctx, proof, driver_ok):
     eng = histcheck.Engine(ctx, sys.modules[__name__])
     if not driver_ok:
         return {'explanation': 'model driver unavailable'}
-    return eng.run(ctx.n(1200, 30000))
+    # the witnesses of the repaired findings first: a recurrence is a VIOLATION
+    replayed = histcheck.replay_fixed(eng, sys.modules[__name__])
+    cov = eng.run(ctx.n(1200, 30000))
+    cov['fixed_witnesses_replayed'] = replayed
+    return cov
 
 
 def replay(ctx, path):
